@@ -130,6 +130,13 @@ pub open spec fn win_copy(w: Win, len: nat, dist: nat) -> Win {
 pub open spec fn win_prev(w: Win) -> nat { if w.hist == 0 { 0 } else { w.out[w.out.len() - 1] as nat } }
 
 // ---- one symbol --------------------------------------------------------------------------------
+pub open spec fn lit_finish(res: Option<(nat, Rc, Seq<u16>)>, m: LzS, ls: int) -> Option<(u8, Rc, LzS)> {
+    match res {
+        None => None,
+        Some((sym, r2, p2)) => Some((((sym - 0x100) as nat) as u8, r2, LzS { lit: m.lit.update(ls, p2), ..m })),
+    }
+}
+
 pub open spec fn sp_literal(rc: Rc, m: LzS, w: Win, upd: bool) -> Option<(u8, Rc, LzS)> {
     let ls = sp_lit_state(m.lc, m.lp, w.hist, win_prev(w));
     if ls >= m.lit.len() { None }
@@ -141,10 +148,7 @@ pub open spec fn sp_literal(rc: Rc, m: LzS, w: Win, upd: bool) -> Option<(u8, Rc
         } else {
             sp_lit_plain(rc, probs, 1, upd)
         };
-        match res {
-            None => None,
-            Some((sym, r2, p2)) => Some((((sym - 0x100) as nat) as u8, r2, LzS { lit: m.lit.update(ls as int, p2), ..m })),
-        }
+        lit_finish(res, m, ls as int)
     }
 }
 
